@@ -182,6 +182,12 @@ func main() {
 		die("usage: extract <repo> <outdir>")
 	}
 	repo, out := os.Args[1], os.Args[2]
+	if abs, err := filepath.Abs(out); err == nil {
+		out = abs
+	}
+	if err := os.MkdirAll(out, 0o755); err != nil {
+		die("%v", err)
+	}
 	if err := os.Chdir(repo); err != nil {
 		die("%v", err)
 	}
